@@ -270,7 +270,9 @@ class AbstractTifa:
             fd.calls[label] = issue_ctor(label)
         me.attrs['method:_issue'] = lambda f, *a: issues.append((f[1], f[2], f[3]))
         me.attrs['method:locate'] = lambda *a: cur['site']
-        fd.calls['is_subtype'] = lambda a, b: True
+        # (type tags: 'T' everywhere in the flow tables; the typing rules use NARROW, a subtype of WIDE)
+        fd.calls['is_subtype'] = lambda a, b: a == b or (a, b) == ('NARROW', 'WIDE') or 'T' in (a, b)
+        self.types_read = []
         fd.calls['AnyType'] = lambda: 'AnyType'
         TYPE_NAMES = ('BuiltinConstructorType', 'FunctionType', 'ClassType', 'IntType', 'FloatType', 'NumType',
                       'ListType', 'DictType', 'SetType', 'TupleType', 'InstanceType', 'StrType', 'BoolType', 'NoneType',
@@ -336,7 +338,7 @@ class AbstractTifa:
             if s[0] == 'call':
                 return Obj('Call', kind='call', func=Obj('Name', kind='name', var=s[1], site=s[2]), args=[],
                            keywords=[], site=s[2])
-            return Obj(s[0], kind=s[0], var=s[1], site=s[2])
+            return Obj(s[0], kind=s[0], var=s[1], site=s[2], type_tag=s[3] if len(s) > 3 else 'T')
 
         def visit(node):
             kind = node.attrs['kind']
@@ -346,9 +348,10 @@ class AbstractTifa:
             cur['site'] = node.attrs['site']
             try:
                 if kind == 'a':
-                    me.attrs['method:store_variable'](node.attrs['var'], 'T')
+                    me.attrs['method:store_variable'](node.attrs['var'], node.attrs.get('type_tag', 'T'))
                 elif kind == 'r':
-                    me.attrs['method:load_variable'](node.attrs['var'])
+                    state_ = me.attrs['method:load_variable'](node.attrs['var'])
+                    self.types_read.append(state_.attrs.get('type') if isinstance(state_, Obj) else state_)
                 elif kind == 'if':
                     me.attrs['method:visit_If'](node)
                 elif kind == 'while':
